@@ -174,7 +174,7 @@ func propAssumptions(prop string) []string {
 	case "C20":
 		return []string{"float64 operations are correctly rounded reals with relative error 2^-53; strconv/fmt formatting under assumed contracts; time.Since(start) > 0"}
 	case "C07":
-		return []string{"display width dw is an additive abstract measure; runewidth/stripansi under assumed contracts; user-supplied meta functions preserve display width"}
+		return []string{"display width dw (what a terminal shows) is an additive abstract measure; runewidth/stripansi under assumed contracts; runewidth.StringWidth equals dw only on plain text (no zero-width control sequences); user-supplied meta functions preserve dw, their results are not assumed plain"}
 	case "C19":
 		return []string{actor, "the wrapped reader/writer is arbitrary (havoc under its interface contract)"}
 	case "C09", "C11":
